@@ -211,6 +211,11 @@ def complete_case(ctx, idx, rng):
     nH = max(np.linalg.norm(mH, 2), 1.0)
     lam = sector_min(mH, qd, L, qtot)
     integ = 'twosite' if two else 'singlesite'
+    # structure classifier (input only): a Hamiltonian that is DIAGONAL in the product basis (only charge-neutral diagonal terms, e.g. a hand-built
+    # nearest-neighbour model whose operators all carry charge 0 on qd = [1, -1]) couples no two configurations
+    diagonal = not np.any(mH - np.diag(np.diag(mH)))
+    if diagonal:
+        cls = cls + '-diagonal-H'
     ctx.case(('complete', integ, name, f'L{L}', f'class{cls}'), sample={'model': name, 'L': L, 'sector': qtot, 'bond_dims': psi.bond_dims, 'class': cls},
              info={'model': name, 'L': L, 'sector': qtot, 'qD': psi.qD, 'A': psi.A, 'H_A': H.A, 'H_qD': H.qD, 'algorithm': integ})
     detail = ctx.cur_info
@@ -221,6 +226,8 @@ def complete_case(ctx, idx, rng):
     sweeps = 0
     reached = False
     cap = 1 if cls == 'E' else 30
+    if diagonal:
+        cap = 30
     while sweeps < cap:
         en = fn(H, psi, 1, numiter_lanczos=numiter)
         en_all.append(float(en[-1]))
@@ -230,7 +237,16 @@ def complete_case(ctx, idx, rng):
             break
         if len(en_all) >= 3 and abs(en_all[-1] - en_all[-2]) < 1e-13 * nH and abs(en_all[-2] - en_all[-3]) < 1e-13 * nH:
             break       # stalled
-    if cls == 'E':
+    if diagonal:
+        if reached:
+            ctx.count('complete.diagonal-H-reaches-ground-state')
+        else:
+            # every local effective Hamiltonian is diagonal too: the Krylov space built from the current tensor never leaves the configurations the state
+            # already has weight on, and each local step collapses the state further -- a greedy descent that can end on a configuration of higher energy
+            ctx.known('C10/diagonal-hamiltonian-greedy-descent',
+                      'DMRG on a complete manifold with a Hamiltonian that is diagonal in the product basis does not reach the exact ground-state energy: local '
+                      'Krylov solvers started from the current tensor cannot regain configurations the state has lost (greedy descent to a local minimum)', detail)
+    elif cls == 'E':
         ctx.ok('complete.classE-reaches-ground-state-in-one-sweep', reached, f'energy {en_all[-1]} after one sweep, exact sector ground state {lam} (bond dims {psi.bond_dims})', detail)
     elif reached:
         ctx.count('complete.classM-reaches-ground-state')
